@@ -12,6 +12,7 @@ import (
 	"github.com/klev-dev/klevdb/pkg/index"
 	"github.com/klev-dev/klevdb/pkg/message"
 	"github.com/klev-dev/klevdb/pkg/segment"
+	"github.com/klev-dev/klevdb/pkg/verifhook"
 )
 
 type reader struct {
@@ -102,6 +103,7 @@ func (r *reader) Consume(offset, maxCount int64) (int64, []message.Message, erro
 	}
 
 	position, maxPosition, nextOffset, err := index.Consume(offset)
+	verifhook.Pause("reader.consume.index-read")
 	switch {
 	case err != nil:
 		return OffsetInvalid, nil, err
@@ -383,6 +385,7 @@ func (r *reader) GC(unusedFor time.Duration) error {
 	}
 
 	r.closeIndex()
+	verifhook.Pause("reader.gc.index-closed")
 
 	r.messagesMu.Lock()
 	defer r.messagesMu.Unlock()
